@@ -283,7 +283,11 @@ RaiseBegin(t, form, noerr) ==
             /\ UNCHANGED <<subs, dead, freed>>
             /\ Log("RaiseBegin", args, out.obs)
 
-\* the running handler returns rv (or raises an exception: rv = "throw")
+\* the running handler returns rv, or raises an exception: rv = "throw" (an
+\* ordinary Exception) or "throwb" (an exception that derives from
+\* BaseException only - the property speaks of "a handler's exception" without
+\* restriction, so error suppression has to contain both alike)
+Throws(rv)  == rv \in {"throw", "throwb"}
 Removes(rv) == rv \in {"false", "remove", "haltremove"}
 Halts(rv)   == rv \in {"true", "halt", "haltremove", "empty"}
 
@@ -292,7 +296,7 @@ Return(rv) ==
   /\ LET f == Top
          c == f.cur
      IN
-     IF rv # "throw"
+     IF ~Throws(rv)
      THEN LET rm  == c.once \/ Removes(rv)
               sb  == IF rm THEN Without(subs, {c.id}) ELSE subs
               f1  == [f EXCEPT !.cur = NoSub, !.halted = Halts(rv)]
@@ -429,7 +433,7 @@ SubscribedAtRaise ==
 \* handler that is not excused
 Complete ==
   [][(last'.a = "Return" /\ Len(stack') < Len(stack) /\ last'.exp.res = "event"
-        /\ ~last'.exp.halt /\ last'.args.rv # "throw" /\ ~Top.threw) =>
+        /\ ~last'.exp.halt /\ ~Throws(last'.args.rv) /\ ~Top.threw) =>
        \A i \in 1..Len(Top.due) :
          Top.due[i].id \in Top.inv \/ Excused(Top.due[i])]_vars
 
@@ -454,7 +458,7 @@ RejectedUnchanged ==
 \* handlers are gone as soon as their invocation returned normally
 NeverAgain ==
   [][/\ \A id \in 1..cnt.sub : id \notin Ids(subs) => id \notin Ids(subs')
-     /\ (last'.a = "Return" /\ last'.args.rv # "throw"
+     /\ (last'.a = "Return" /\ ~Throws(last'.args.rv)
            /\ (Top.cur.once \/ Removes(last'.args.rv))) => Top.cur.id \notin Ids(subs')
      /\ (last'.a = "Unsubscribe") =>
            \A r \in Range(subs) :
